@@ -95,4 +95,11 @@ CHECKS = {
           "that really have that defect, and NonFiniteCoord for injected NaN / infinities."),
     note=_TB + " Repeated consecutive vertices and interior connectedness are outside what the property fixes and are not generated / demanded.",
     technique="TLA+ validity predicates (witness lattice) enumerated by TLC over valid and invalid shapes; spec->impl replay", design_ref="DESIGN.md 5 C14"),
+ "C15": dict(
+    text=("Gen_LineMeasure.tla: exact arc-length parametrisation (PointAt) over integer-length-segment line strings incl. repeated "
+          "vertices; the implementation-shaped distance_remaining walk is checked against it by TLC on every state; replay of "
+          "ratio/distance x from-start/from-end forms on LineString and Line, line_locate_point round trip, length, and densify "
+          "postconditions (vertices kept in order, max segment length, total length, minimal piece count) on all densifiable types."),
+    note="Trusted: TLC. Segment lengths are integers by construction; tolerance 1e-12 x length. Densify outputs are held to the four stated postconditions, not to a particular subdivision.",
+    technique="TLA+ exact arc-length parametrisation + walk model checked by TLC; spec->impl replay", design_ref="DESIGN.md 5 C15"),
 }
